@@ -65,6 +65,21 @@ class CallGraph:
         # lambdas and nested defs that are referenced
         for lam in fi.lambdas:
             self._add(fi, lam, lam.node)
+        # a decorator of the package replaces the function by what it returns: calling the function runs the decorator's wrapper
+        for d in getattr(fi.node, "decorator_list", []):
+            target = d.func if isinstance(d, ast.Call) else d
+            if isinstance(target, (ast.Name, ast.Attribute)):
+                try:
+                    r = repo.resolve_expr(fi.module if fi.parent is None else fi.parent, target)
+                except Exception:
+                    continue
+                if r.kind == "func":
+                    self._add(fi, r.func, d)
+                    stack = list(r.func.children.values())
+                    while stack:
+                        c = stack.pop()
+                        self._add(fi, c, d)
+                        stack.extend(c.children.values())
         uses_iter = False
         for n in fi.own_nodes(include_lambdas=False):
             if isinstance(n, ast.Name) and isinstance(n.ctx, ast.Load):
